@@ -74,6 +74,15 @@ func genStorage(c *Ctx, groupBy bool) any {
 		for i, nc := 0, r.Range(4, 7); i < nc; i++ {
 			sp.Cols = append(sp.Cols, ColSpec{Name: S(colNames[i]), Card: r.Range(1, 4), Shape: "uniform", Kind: []string{"num", "utf8", "mixed"}[r.Intn(3)], Missing: []int{0, 0, 100, 400}[r.Intn(4)]})
 		}
+		if r.Chance(1, 4) {
+			// tuples that a joined-string key confuses: (p+sep+q, r) vs (p, q+sep+r)
+			for i := range sp.Cols {
+				sp.Cols[i].Kind, sp.Cols[i].Card, sp.Cols[i].Missing = "joinable", 9, 0
+			}
+			if sp.N < 120 {
+				sp.N = r.Range(120, 400)
+			}
+		}
 	}
 	if r.Chance(1, 10) {
 		// more than 1000 distinct values: crosses the in-memory writer's commit batch
@@ -288,6 +297,12 @@ func genC05(c *Ctx) any {
 	if r.Chance(1, 3) {
 		cs.Writers = []string{writerKinds[r.Intn(3)], "big"}
 	}
+	if (c.Thorough() && r.Chance(1, 120)) || r.Chance(1, 160) {
+		// one value on more than 2^20 rows (buffers and batches sized in powers of two), no
+		// unique column (a million distinct values would only measure patience)
+		cs.Data.Spec = &DataSpec{Seed: sp.Seed, N: 1<<20 + r.Range(0, 2), Cols: []ColSpec{{Name: "a", Card: 1, Shape: "uniform", Kind: "num"}, {Name: "b", Card: 3, Shape: "uniform", Kind: "num", Missing: 500}}}
+		cs.Writers = []string{"big", "mem-file"}
+	}
 	// history: starts with open, ends closed
 	open := false
 	for i, hl := 0, r.Range(2, 8); i < hl || open; i++ {
@@ -491,6 +506,11 @@ func genC08(c *Ctx) any {
 		if i > 0 {
 			sp.Seed = r.U64() | 1 // same columns, different rows
 			sp.N = r.Range(1, 150)
+			if len(base.Cols) > 1 && r.Chance(1, 3) {
+				// ... or one column fewer: the query may name a column this index does not have
+				drop := r.Intn(len(base.Cols))
+				sp.Cols = append(append([]ColSpec{}, base.Cols[:drop]...), base.Cols[drop+1:]...)
+			}
 		}
 		cs.Datas = append(cs.Datas, Dataset{Spec: &sp})
 		cs.Opens = append(cs.Opens, genOpenCfg(r, false))
